@@ -132,6 +132,25 @@ CORPUS = [
     ('31', "let $n := [(1, 2), 5] return (count((array:get($n, 1), 3)), array:get($n, 1))"), ('31', '($m("b"), $m("b"))'),
     ('31', 'insert-before($m("b"), 1, 0)'), ('31', 'reverse(($m("b"), $r(3)))'), ('3', '(function() { $q }(), 1)'),
     ('31', '(map:for-each($m, function($k, $v) { $v }), 1)'), ('31', '($m?*, 0)'), ('31', '(array:flatten($r), 0)'),
+    # map and array constructors used as function items (the callee receives the constructor itself)
+    ('31', 'for $x in (10, 20) return for-each(("a", "b"), map{"a": $x, "b": $x + 1})'),
+    ('31', '//a ! apply(map{"k": string(@n)}, ["k"])'), ('31', '//a ! for-each("k", map{"k": string(@n)})'),
+    ('31', 'for $x in (1, 2) return filter(("a", "b"), map{"a": $x = 1, "b": $x = 2})'),
+    ('31', 'for $x in (1, 2) return for-each((1, 2), [$x, $x * 10])'), ('31', '//a ! apply([string(@n), name()], [2])'),
+    ('31', 'for $x in (1, 2) return map{"a": $x}("a")'), ('31', 'for $x in (1, 2) return [$x, $x + 1](2)'),
+    ('31', 'for $x in (1, 2) return (map{"a": $x} => map:get("a"))'), ('31', '//c ! map{"v": number(.)}?v'),
+    ('31', 'for $x in (1, 2) return fold-left(("a", "b"), 0, function($z, $k) { $z + map{"a": $x, "b": $i}($k) })'),
+    ('31', 'for $x in (1, 2) return sort(("b", "a"), (), map{"a": $x, "b": 3 - $x})'),
+    ('31', 'for $x in ("p", "q") return map:for-each(map{"k": $x}, function($k, $v) { $v })'),
+    # serialization of elements that have a tail (and of the other node kinds) under every parameter
+    ('3', 'serialize(//b)'), ('31', 'serialize(//b, map{"standalone": true()})'), ('31', 'serialize(//b, map{"indent": true()})'),
+    ('31', 'serialize(//b, map{"method": "html"})'), ('31', 'serialize(//b, map{"method": "text"})'),
+    ('31', 'serialize(//b, map{"omit-xml-declaration": false()})'), ('31', 'serialize(//b, map{"method": "json"})'),
+    ('31', 'serialize(/*/*, map{"item-separator": "|"})'), ('31', 'serialize(/*/*[1], map{"standalone": false(), "indent": true()})'),
+    ('31', 'serialize((//b, //@n, //text()), map{"method": "adaptive"})'), ('31', 'serialize(/*, map{"standalone": true()})'),
+    ('31', 'serialize(//b, map{"cdata-section-elements": xs:QName("b")})'), ('31', 'serialize(/*/*[2], map{"version": "1.0"})'),
+    ('31', 'serialize(/*/*[2], map{"encoding": "utf-8", "doctype-system": "x.dtd"})'),
+    ('3', 'serialize(/*/*[2]) = serialize(/*/*[2])'),
     # named function references to context-dependent functions: the focus is the one of each evaluation
     ('3', '/*/*[1] ! name#0()'), ('3', 'for $f in (/*/* ! name#0) return $f()'), ('3', 'count(root#0() | /)'),
     ('3', '/*/*[1] ! string#0()'), ('3', '//a ! (position#0)()'), ('3', '//a ! (last#0)()'), ('3', '(//a ! string#0) ! .()'),
